@@ -11,6 +11,11 @@ fn main() {
     let tier = if tier_s == "thorough" { Tier::Thorough } else { Tier::Quick };
     let code = match args[1].as_str() {
         "C01" => c01::run(tier),
+        "C02" => c02::run(tier),
+        "C04" => c04::run(tier),
+        "C05" => csem::c05(tier),
+        "C04-child" => c04::child(tier, args.get(3).map(|s| s.as_str()).unwrap_or("?")),
+        "C17" => c17::run(tier),
         other => {
             eprintln!("unknown check {}", other);
             2
